@@ -510,9 +510,97 @@ class TwoKeysOneShard(Suite):
         return repr(case)
 
 
+class MemoryCacheOps(Suite):
+    """InMemoryCache: sequences of get / get_or_compute / forced get_or_compute / len on the cache and its (nested)
+    sub-caches against the obvious reference - a mapping per sub-cache path: a look-up of a missing key changes nothing
+    (the next get_or_compute calls f), a computation that raises stores nothing, every stored value - None, falsy ones -
+    comes back.  Runtime check only (the Coq cache model is the file cache)."""
+    name = 'memory_cache_histories'
+    model = ''
+
+    def corpus(self):
+        g = lambda key, sub=(): dict(op='get', sub=list(sub), key=key)
+        c = lambda key, v, sub=(), force=False: dict(op='goc', sub=list(sub), key=key, comp=v, force=force)
+        ln = lambda sub=(): dict(op='len', sub=list(sub))
+        return [dict(ops=[g('k'), ln(), c('k', [1]), g('k'), ln(), c('k', [2]), c('k', [3], force=True), g('k'), ln()]),
+                dict(ops=[g('k', ['s']), c('k', [1], ['s']), g('k'), c('k', [2]), g('k', ['s']), ln(['s']), ln(), g('k', ['s', 't']),
+                          c('k', [5], ['s', 't']), g('k', ['s'])]),
+                dict(ops=[c('k', None), g('k'), ln(), c('k', [None]), g('k'), c('k', [7]), c('k', None, force=True), g('k'), ln()]),
+                dict(ops=[x for v in (0, '', [], {}, False, None) for x in (g(repr(v)), c(repr(v), [v]), g(repr(v)), c(repr(v), [9]))] + [ln()])]
+
+    def gen(self, rng, tier):
+        out = []
+        for _ in range(40 if tier == 'quick' else 1000):
+            keys = rng.sample(KEYS, rng.choice([1, 2, 3]))
+            ops = []
+            for _ in range(rng.choice([3, 6, 10, 16])):
+                r = rng.random()
+                sub, key = rng.choice(SUBS), rng.choice(keys)
+                if r < 0.3:
+                    ops.append(dict(op='get', sub=sub, key=key))
+                elif r < 0.9:
+                    ops.append(dict(op='goc', sub=sub, key=key, comp=None if rng.random() < 0.12 else [rng.choice(VALUES)], force=rng.random() < 0.2))
+                else:
+                    ops.append(dict(op='len', sub=sub))
+            out.append(dict(ops=ops))
+        return out
+
+    def run_impl(self, case):
+        from taskchain.cache import InMemoryCache, NO_VALUE
+        root = InMemoryCache()
+        outs = []
+        for op in case['ops']:
+            cache = root
+            for name in op['sub']:
+                cache = cache.subcache(name)
+            calls = []
+            if op['op'] == 'len':
+                outs.append(['len', len(cache), 0])
+                continue
+
+            def comp():
+                calls.append(1)
+                if op['comp'] is None:
+                    raise KeyError('the computation fails')
+                return op['comp'][0]
+            try:
+                v = cache.get(op['key']) if op['op'] == 'get' else cache.get_or_compute(op['key'], comp, force=op['force'])
+                outs.append(['novalue' if v is NO_VALUE else 'val', None if v is NO_VALUE else v, len(calls)])
+            except KeyError:
+                outs.append(['exc', None, len(calls)])
+        return dict(outs=outs)
+
+    def oracle(self, case, obs):
+        if 'unexpected_exception' in obs:
+            return f'unexpected exception {obs["unexpected_exception"]}: {obs["text"]}'
+        store = {}
+        for k, (op, got) in enumerate(zip(case['ops'], obs['outs'])):
+            m = store.setdefault(tuple(op['sub']), {})
+            if op['op'] == 'len':
+                want = ['len', len(m), 0]
+            elif op['op'] == 'get':
+                want = ['val', m[op['key']], 0] if op['key'] in m else ['novalue', None, 0]
+            elif op['key'] in m and not op['force']:
+                want = ['val', m[op['key']], 0]
+            elif op['comp'] is None:
+                want = ['exc', None, 1]
+            else:
+                m[op['key']] = op['comp'][0]
+                want = ['val', op['comp'][0], 1]
+            if json.dumps(got) != json.dumps(want):
+                return f'operation {k} {op}: {got} (kind, value, calls of f), the reference says {want}; operations so far {case["ops"][:k]}'
+        return None
+
+    def nontrivial(self, case, obs):
+        return any(o['op'] == 'goc' for o in case['ops'])
+
+    def key(self, case):
+        return repr(case)
+
+
 class C14(Prop):
     pid = 'C14'
-    suites = [JsonCacheOps(), NumpyCacheOps(), ArrayAndFrameCaches(), TwoKeysOneShard()]
+    suites = [JsonCacheOps(), NumpyCacheOps(), ArrayAndFrameCaches(), TwoKeysOneShard(), MemoryCacheOps()]
     trusted_base = ['orjson round trip of JSON-like values and "no proper prefix of an entry parses" (damaged files are '
                     'produced by truncation at arbitrary byte lengths in the correspondence)']
     assumptions = ['sequential use (concurrency is C15); SHA-256 without collision on the keys that occur']
